@@ -211,7 +211,13 @@ pub fn eval(expr: Node) -> Result<Number, Box<dyn error::Error>> {
             let b = eval(*expr2)?;
             match a {
                 Number::Integer(value_a) => match b {
-                    Number::Integer(value_b) => Ok(Number::Integer(value_a % value_b)),
+                    Number::Integer(value_b) => {
+                        if value_b == 0 {
+                            Ok(Number::Float((value_a as f64) % (value_b as f64)))
+                        } else {
+                            Ok(Number::Integer(value_a.wrapping_rem(value_b)))
+                        }
+                    }
                     Number::Float(value_b) => Ok(Number::Float((value_a as f64) % value_b)),
                 },
                 Number::Float(value_a) => match b {
